@@ -702,7 +702,7 @@ pub fn prop() -> DiceProp {
         nightly: false,
         check_only: false,
         ndice: 200,
-        quick: (900, 1),
+        quick: (2500, 1),
         thorough: (1800, 6),
         build,
         fixed: no_fixed,
